@@ -384,7 +384,8 @@ def explore(sysm, start_hist, max_depth, res, found):
                 found.add(key)
                 res.violation(key, {'history': list(start_hist[:i + 1])}, f'after {list(start_hist[:i + 1])}: {msg}')
         if v: return seen
-    seen.add(canon(c0))
+    prov0 = next((o[0] for o in reversed(start_hist) if o[0] in ('copy', 'pickle')), None)
+    seen.add((canon(c0), prov0, type(c0.nodes).__name__, type(c0.lines).__name__, type(c0.io_nodes).__name__))
     q = deque([list(start_hist)])
     while q:
         hist = q.popleft()
@@ -405,8 +406,14 @@ def explore(sysm, start_hist, max_depth, res, found):
                         found.add(key)
                         res.violation(key, {'history': hist + [op]}, f'after {hist + [op]}: {msg}')
                 continue
-            k = canon(c2)
+            # A copy / an unpickled circuit is structurally equal to its original, but it is a different object built by different
+            # code: its futures need not be the same.  The state key therefore carries the provenance (how the object explored
+            # from here on came into being) and the container types, so everything is explored again behind a copy and behind a
+            # pickle round trip.
+            prov = next((o[0] for o in reversed(hist + [op]) if o[0] in ('copy', 'pickle')), None)
+            k = (canon(c2), prov, type(c2.nodes).__name__, type(c2.lines).__name__, type(c2.io_nodes).__name__)
             res.count('op_' + op[0])
+            if prov: res.count('transitions_behind_' + prov)
             if k in seen: continue
             seen.add(k)
             res.states += 1
